@@ -1,91 +1,22 @@
 /-
 Line-protocol driver: one request per line (`op<TAB>arg…`, arguments percent-encoded),
 one reply line each.  Imports the Mathlib-free model/spec only, so it links as an executable.
+Each area contributes a handler `String → List String → Option String` in PoetryVerif/Drv/*.lean;
+`handlers` below is the registry.
 -/
 import PoetryVerif.Protocol
-import PoetryVerif.Model.Version
-import PoetryVerif.Spec.Pep440
-import PoetryVerif.Model.VPrint
-import PoetryVerif.Model.VParser
+import PoetryVerif.Drv.VC
 
 open Poetry Poetry.Proto
 
-def ordStr : Ordering → String
-  | .lt => "lt" | .eq => "eq" | .gt => "gt"
+def handlers : List (String → List String → Option String) :=
+  [Poetry.Drv.handleVC]
 
-def errStr (e : PyErr) : String := "err\t" ++ e.name
-
-def handleVersion (op : String) (args : List String) : Option String :=
-  match op, args with
-  | "vparse", [s] =>
-    some <| match Version.parse s with
-    | .ok v => "ok\t" ++ encode v.dump ++ "\t" ++ encode v.toString ++ "\t" ++ encode v.text
-    | .error e => errStr e
-  | "vcmp", [a, b] =>
-    some <| match Version.parse a, Version.parse b with
-    | .ok x, .ok y => "ok\t" ++ ordStr (Version.cmp x y) ++ "\t" ++ ordStr (Spec.cmpRef x y)
-    | .error e, _ => errStr e
-    | _, .error e => errStr e
-  | "vbump", [s] =>
-    some <| match Version.parse s with
-    | .ok v =>
-      "ok\t" ++ joinWith "\t" ([v.nextMajor, v.nextMinor, v.nextPatch, v.nextBreaking, v.stable,
-        v.firstDevrelease, v.firstPrerelease, v.nextStable, v.nextPrerelease, v.nextPostrelease,
-        v.nextDevrelease, v.withoutLocal, v.withoutPostrelease, v.withoutDevrelease].map
-          (fun w => encode w.text))
-    | .error e => errStr e
-  | _, _ => none
-
-def pyStr {α : Type} (f : α → String) : PyM α → String
-  | .ok a => f a
-  | .error e => "!" ++ e.name
-
-def pyBool : PyM Bool → String
-  | .ok true => "1"
-  | .ok false => "0"
-  | .error e => "!" ++ e.name
-
-def vcText (c : VC) : String := pyStr id c.toStr
-
-def probeBits (c : VC) (probes : List String) : String :=
-  String.join (probes.map fun p =>
-    match Version.parse p with
-    | .ok v => (match c.allows v with | .ok true => "1" | .ok false => "0" | .error _ => "E")
-    | .error _ => "?")
-
-def vcReport (c : VC) (probes : List String) : String :=
-  encode (vcText c) ++ "\t" ++ encode c.dump ++ "\t" ++ boolStr c.isAny ++ boolStr c.isEmpty ++
-    "\t" ++ pyBool c.isSimple ++ "\t" ++ encode (probeBits c probes)
-
-def handleConstraint (op : String) (args : List String) : Option String :=
-  match op, args with
-  | "cparse", s :: probes =>
-    some <| match VParser.parseConstraint s with
-    | .ok c => "ok\t" ++ vcReport c probes
-    | .error e => errStr e
-  | "cmparse", s :: probes =>
-    some <| match VParser.parseMarkerVersionConstraint s with
-    | .ok c => "ok\t" ++ vcReport c probes
-    | .error e => errStr e
-  | "cop", o :: a :: b :: probes =>
-    some <| match VParser.parseConstraint a, VParser.parseConstraint b with
-    | .ok x, .ok y =>
-      let r : PyM VC := match o with
-        | "intersect" => x.intersect y
-        | "union" => x.unionWith y
-        | "difference" => x.difference y
-        | _ => .error .runtime
-      (match r with
-       | .ok c => "ok\t" ++ vcReport c probes
-       | .error e => errStr e)
-    | .error e, _ => "perr\t" ++ e.name
-    | _, .error e => "perr\t" ++ e.name
-  | "cpred", [a, b] =>
-    some <| match VParser.parseConstraint a, VParser.parseConstraint b with
-    | .ok x, .ok y => "ok\t" ++ pyBool (x.allowsAll y) ++ "\t" ++ pyBool (x.allowsAny y)
-    | .error e, _ => "perr\t" ++ e.name
-    | _, .error e => "perr\t" ++ e.name
-  | _, _ => none
+def dispatch (op : String) (args : List String) : List (String → List String → Option String) → String
+  | [] => "bad-op"
+  | h :: hs => match h op args with
+    | some r => r
+    | none => dispatch op args hs
 
 def handle (line : String) : String :=
   let fields := line.splitOn "\t"
@@ -94,13 +25,7 @@ def handle (line : String) : String :=
   | op :: rawArgs =>
     match rawArgs.mapM decodeArg with
     | none => "bad-arg"
-    | some args =>
-      match handleVersion op args with
-      | some r => r
-      | none =>
-      match handleConstraint op args with
-      | some r => r
-      | none => "bad-op"
+    | some args => dispatch op args handlers
 
 partial def loop (h : IO.FS.Stream) (out : IO.FS.Stream) : IO Unit := do
   let line ← h.getLine
